@@ -239,6 +239,10 @@ def run_case(case):
                 ('.', '.'), ('N', 'n')]
         specs = [{'name': t, 'patterns': [dict(zip(('find', 'replace'), rng.choice(pool)))
                                           for _ in range(rng.randint(1, 3))]} for t in targets]
+        if rng.random() < 0.3:
+            # the same field named by a second item: the items apply one after the other
+            specs.append({'name': specs[0]['name'], 'patterns': [dict(zip(('find', 'replace'), rng.choice(pool)))]})
+            covc['find_replace/field_named_twice'] = 1
         step = d.find_replace(copy.deepcopy(specs), resources=copy.deepcopy(selector))
         ref = lambda F, R: refmodel.find_replace(F, R, specs)   # noqa: E731
         alt_ref = ('find_replace_null_as_text',
